@@ -9,6 +9,7 @@
 -/
 import XotModel.Model.XmlDecl
 import XotModel.Lemmas.Doctype
+import XotModel.Lemmas.XmlDeclRest
 
 namespace XotModel
 open Gen
@@ -98,12 +99,6 @@ theorem serializePretty_leaf (esc : Escapers) (env : Env) (pr : TokenParams) (su
   · by_cases hc : isCdataElement pr (t.parentAt? start) = true <;>
       simp [renderXmlWith, leafText, hc, bufferToString, tokenBytes, prettify, Outcome.appendOk, leafNewline]
 
-/-- The declaration bytes `serialize_xml_write` puts in front. -/
-def declBytes (p : XmlParams) : Str :=
-  match p.declaration with
-  | some d => d.bytes
-  | none => []
-
 /-- **`serialize_xml_string` on a comment / PI / text start node**, every parameter set:
     with a doctype the call answers `NotElement`; otherwise declaration ++ token (++ line feed when indenting
     and the node is a comment or PI). -/
@@ -113,7 +108,7 @@ theorem serializeXmlString_leaf (esc : Escapers) (env : Env) (p : XmlParams) (t 
       (match p.doctype with
        | some _ => .err .notElement
        | none =>
-         Outcome.prependOk (declBytes p)
+         Outcome.prependOk p.declBytes
            ((leafText esc env p.tokenParams (t.parentAt? start) v).appendOk
              (match p.indentation with
               | some _ => leafNewline v
@@ -128,7 +123,7 @@ theorem serializeXmlString_leaf (esc : Escapers) (env : Env) (p : XmlParams) (t 
   | none =>
     cases hind : p.indentation with
     | none =>
-      simp only [serializeXmlStringWith, serializeXmlWriteWith, hdt, hind, bufferToString, declBytes]
+      simp only [serializeXmlStringWith, serializeXmlWriteWith, hdt, hind, bufferToString, XmlParams.declBytes]
       cases hb : (serializeWriteWith esc env p.tokenParams t start).2 with
       | ok u => rw [hb] at hS; simp [← hS, Outcome.appendOk, Outcome.prependOk]; cases p.declaration <;> rfl
       | err e => rw [hb] at hS; simp [← hS, Outcome.appendOk, Outcome.prependOk]
@@ -136,7 +131,7 @@ theorem serializeXmlString_leaf (esc : Escapers) (env : Env) (p : XmlParams) (t 
     | some sup =>
       have hP := serializePretty_leaf esc env p.tokenParams sup t start v hat hv
       simp only [serializePrettyWith, bufferToString] at hP
-      simp only [serializeXmlStringWith, serializeXmlWriteWith, hdt, hind, bufferToString, declBytes]
+      simp only [serializeXmlStringWith, serializeXmlWriteWith, hdt, hind, bufferToString, XmlParams.declBytes]
       cases hb : (serializePrettyWriteWith esc env p.tokenParams sup t start).2 with
       | ok u => rw [hb] at hP; simp [← hP, Outcome.prependOk]; cases p.declaration <;> rfl
       | err e => rw [hb] at hP; simp [← hP, Outcome.prependOk]
